@@ -22,11 +22,19 @@
  * results cached); the skeleton of the irreducible tree, e.g. `!(a||b)` or
  * `a&&(b||c)`, is the key.
  *
- * Atom semantics (operators x fields x below/at/above, "left operand is the
- * line's value") is enumerated separately under its own keys.
- * Mode `bind` (plain variant): every tree with <= 3 leaves through the dgrep
- * binary of the same build with and without -v, compared with what the
- * in-process pipeline selected; plus line semantics of the CLI. */
+ * Stacked negations: every tree up to 3 leaves with 0..2 negations on an inner
+ * node and 0..3 on a leaf, written !!x (minimal) and !(!(x)) (full).
+ * Pairs: 29 atoms (year, weekday name, date, time, date-time bound x the six
+ * operators and "operator omitted") in every ordered pair joined by && and ||,
+ * on a grid of 5 dates x 3 times: what one atom leaves behind for the next
+ * (parser state) shows here; leaf set C carries the same idea into the trees.
+ * Atom semantics (operators x fields x every distance -3..+3 from the
+ * constant, "left operand is the line's value") is enumerated separately under
+ * its own keys (kind, operator, distance).
+ * Mode `bind` (plain variant): every tree with <= 3 leaves (sets A and C), the
+ * stacked negations up to 2 leaves and all pairs through the dgrep binary of
+ * the same build with and without -v, compared with what the in-process
+ * pipeline selected; plus line semantics of the CLI. */
 #include "impl.h"
 #include "dt-io.h"
 #include "explore.h"
@@ -51,9 +59,12 @@ struct leafset {
 /* set A: year, month, weekday name, time-of-day bound, count of the weekday in
  * the month: independent (a day exists for every combination).
  * set B (<= 4 leaves): day of month, year, time bound, month. */
-static const struct leafset sets[2] = {
+static const struct leafset sets[3] = {
 	{"A", 5, {"%Y=2012", "%m=3", "%a=\"Wed\"", ">=12:00:00", "%c=2"}},
 	{"B", 4, {"%d=16", "%Y=2012", ">=12:00:00", "%m=3"}},
+	/* set C (<= 4 leaves): a bare time (operator omitted) behind and in front of atoms with other
+	 * operators: state carried from one atom to the next shows here */
+	{"C", 4, {"%Y<2013", "12:00:00", "%m!=4", "%d>=16"}},
 };
 
 /* boring calendar for the handful of days needed here (the 73 MB table of
@@ -115,11 +126,16 @@ mk_line(char *buf, size_t bsz, int set, unsigned int bits)
 			fprintf(stderr, "c17: no day for assignment %u\n", bits);
 			exit(3);
 		}
-	} else {
+	} else if (set == 1) {
 		d = (bits & 1U) ? 16 : 17;
 		y = (bits & 2U) ? 2012 : 2013;
 		H = (bits & 4U) ? 13 : 11;
 		m = (bits & 8U) ? 3 : 4;
+	} else {
+		y = (bits & 1U) ? 2012 : 2013;
+		H = (bits & 2U) ? 12 : 11;
+		m = (bits & 4U) ? 3 : 4;
+		d = (bits & 8U) ? 16 : 15;
 	}
 	snprintf(buf, bsz, "%04d-%02d-%02dT%02d:00:00", y, m, d, H);
 }
@@ -177,6 +193,57 @@ gen_trees(int first, int cnt)
 	}
 }
 
+/* trees with stacked negations: 0..2 negations on an inner node, 0..3 on a leaf */
+static struct tlist TS[MAXLEAF + 1][MAXLEAF + 1];
+
+static void
+gen_stacked(int first, int cnt)
+{
+	static const char *const bang[4] = {"", "!", "!!", "!!!"};
+	struct tlist *l = &TS[first][cnt];
+	char buf[MAXT];
+	if (l->n) {
+		return;
+	}
+	if (cnt == 1) {
+		for (int ng = 0; ng < 4; ng++) {
+			snprintf(buf, sizeof(buf), "%s%d", bang[ng], first);
+			tl_add(l, buf);
+		}
+		return;
+	}
+	for (int k = 1; k < cnt; k++) {
+		gen_stacked(first, k);
+		gen_stacked(first + k, cnt - k);
+	}
+	for (int k = 1; k < cnt; k++) {
+		struct tlist *a = &TS[first][k], *b = &TS[first + k][cnt - k];
+		for (int op = 0; op < 2; op++) {
+			for (int ng = 0; ng < 3; ng++) {
+				for (size_t i = 0; i < a->n; i++) {
+					for (size_t j = 0; j < b->n; j++) {
+						snprintf(buf, sizeof(buf), "%s%c%s%s", bang[ng], op ? '|' : '&', a->t[i], b->t[j]);
+						tl_add(l, buf);
+					}
+				}
+			}
+		}
+	}
+}
+
+/* negations beyond the first on any node (0: the tree is in the one-flag enumeration) */
+static int
+t_excess(const char *s)
+{
+	int x = 0;
+	for (; *s; s++) {
+		if (s[0] == '!' && s[1] == '!') {
+			x++;
+		}
+	}
+	return x;
+}
+
 /* end of the subtree that starts at S */
 static const char*
 t_end(const char *s)
@@ -230,12 +297,12 @@ static void
 t_render(char *out, size_t osz, const char **sp, const char *const atom[], int mode, int parent_op, int right_side)
 {
 	const char *s = *sp;
-	int neg = 0;
+	int neg = 0;		/* number of negations on this node: written !!x (min, blank) resp. !(!(x)) (full) */
 	size_t k = strlen(out);
 	const char *sep = mode == R_BLANK ? " " : "";
 
 	while (*s == '!') {
-		neg ^= 1;
+		neg++;
 		s++;
 	}
 	if (*s == '&' || *s == '|') {
@@ -248,18 +315,30 @@ t_render(char *out, size_t osz, const char **sp, const char *const atom[], int m
 		} else {
 			paren = 1;
 		}
-		snprintf(out + k, osz - k, "%s%s%s", neg ? "!" : "", paren ? "(" : "", paren ? sep : "");
+		for (int i = 0; i < neg; i++) {
+			k += (size_t)snprintf(out + k, osz - k, "!%s%s", sep, mode == R_FULL && i + 1 < neg ? "(" : "");
+		}
+		snprintf(out + k, osz - k, "%s%s", paren ? "(" : "", paren ? sep : "");
 		t_render(out, osz, &s, atom, mode, op, 0);
 		k = strlen(out);
 		snprintf(out + k, osz - k, "%s%s%s", sep, op == '&' ? "&&" : "||", sep);
 		t_render(out, osz, &s, atom, mode, op, 1);
 		k = strlen(out);
-		snprintf(out + k, osz - k, "%s%s", paren ? sep : "", paren ? ")" : "");
+		k += (size_t)snprintf(out + k, osz - k, "%s%s", paren ? sep : "", paren ? ")" : "");
+		for (int i = 1; mode == R_FULL && i < neg; i++) {
+			k += (size_t)snprintf(out + k, osz - k, ")");
+		}
 	} else {
 		const char *a = atom[*s - '0'];
 		s++;
-		if (mode == R_FULL && neg) {
-			snprintf(out + k, osz - k, "!(%s)", a);
+		if (mode == R_FULL) {
+			for (int i = 0; i < neg; i++) {
+				k += (size_t)snprintf(out + k, osz - k, "!(");
+			}
+			k += (size_t)snprintf(out + k, osz - k, "%s", a);
+			for (int i = 0; i < neg; i++) {
+				k += (size_t)snprintf(out + k, osz - k, ")");
+			}
 		} else if (mode == R_BLANK) {
 			/* blanks around the operator of the atom as well: "%Y = 2012" */
 			char tmp[64];
@@ -274,9 +353,15 @@ t_render(char *out, size_t osz, const char **sp, const char *const atom[], int m
 				}
 			}
 			tmp[j] = '\0';
-			snprintf(out + k, osz - k, "%s%s", neg ? "! " : "", tmp);
+			for (int i = 0; i < neg; i++) {
+				k += (size_t)snprintf(out + k, osz - k, "! ");
+			}
+			snprintf(out + k, osz - k, "%s", tmp);
 		} else {
-			snprintf(out + k, osz - k, "%s%s", neg ? "!" : "", a);
+			for (int i = 0; i < neg; i++) {
+				k += (size_t)snprintf(out + k, osz - k, "!");
+			}
+			snprintf(out + k, osz - k, "%s", a);
 		}
 	}
 	*sp = s;
@@ -608,7 +693,7 @@ reduce(char *tree, int set, int nl, int mode, int fbit, const char *kind)
 				/* under a negated root the negation is pushed down to the children:
 				 * the children as the rewriting sees them have the other polarity */
 				for (int c = 0; c < 2; c++) {
-					if (tree[0] != '!') {
+					if (!(strspn(tree, "!") & 1U)) {
 						cand[2 + c][0] = '\0';
 					} else if (cand[c][0] == '!') {
 						snprintf(cand[2 + c], MAXT, "%s", cand[c] + 1);
@@ -737,26 +822,27 @@ struct afield {
 	const char *name;
 	const char *kind;	/* key: the fields of one kind share the code path; the field is the ordered coordinate */
 	const char *lhs;	/* specifier or "" for a date/time bound */
-	const char *val[3];	/* constant written in the expression: numeric form; NULL = none */
-	const char *line[3];	/* lines whose value is below / at / above the constant */
+	const char *val;	/* constant written in the expression */
+	const char *line[7];	/* lines whose value is constant-3 .. constant+3; NULL: no such value */
 	int ordered;		/* ordering operators meaningful */
 };
 static const struct afield afields[] = {
-	{"%Y", "numeric specifier", "%Y", {"2012"}, {"2011-03-14", "2012-03-14", "2013-03-14"}, 1},
-	{"%m", "numeric specifier", "%m", {"3"}, {"2012-02-14", "2012-03-14", "2012-04-14"}, 1},
-	{"%d", "numeric specifier", "%d", {"16"}, {"2012-03-15", "2012-03-16", "2012-03-17"}, 1},
-	{"%j", "numeric specifier", "%j", {"76"}, {"2012-03-15", "2012-03-16", "2012-03-17"}, 1},
-	{"%c", "numeric specifier", "%c", {"2"}, {"2012-03-07", "2012-03-14", "2012-03-21"}, 1},
-	{"%a string", "name specifier", "%a", {"\"Wed\""}, {"2012-03-13", "2012-03-14", "2012-03-15"}, 0},
-	{"%A string", "name specifier", "%A", {"\"Wednesday\""}, {"2012-03-13", "2012-03-14", "2012-03-15"}, 0},
-	{"%b string", "name specifier", "%b", {"\"Mar\""}, {"2012-02-14", "2012-03-14", "2012-04-14"}, 0},
-	{"%B string", "name specifier", "%B", {"\"March\""}, {"2012-02-14", "2012-03-14", "2012-04-14"}, 0},
-	{"date", "date bound", "", {"2012-03-16"}, {"2012-03-15", "2012-03-16", "2012-03-17"}, 1},
-	{"time", "time bound", "", {"12:00:00"}, {"2012-03-16T11:59:59", "2012-03-16T12:00:00", "2012-03-16T12:00:01"}, 1},
-	{"date-time", "date-time bound", "", {"2012-03-16T12:00:00"}, {"2012-03-16T11:59:59", "2012-03-16T12:00:00", "2012-03-16T12:00:01"}, 1},
+	{"%Y", "numeric specifier", "%Y", "2012", {"2009-03-14", "2010-03-14", "2011-03-14", "2012-03-14", "2013-03-14", "2014-03-14", "2015-03-14"}, 1},
+	{"%m", "numeric specifier", "%m", "6", {"2012-03-14", "2012-04-14", "2012-05-14", "2012-06-14", "2012-07-14", "2012-08-14", "2012-09-14"}, 1},
+	{"%d", "numeric specifier", "%d", "16", {"2012-03-13", "2012-03-14", "2012-03-15", "2012-03-16", "2012-03-17", "2012-03-18", "2012-03-19"}, 1},
+	{"%j", "numeric specifier", "%j", "76", {"2012-03-13", "2012-03-14", "2012-03-15", "2012-03-16", "2012-03-17", "2012-03-18", "2012-03-19"}, 1},
+	/* May 2012 has five Wednesdays: count 1..5, constant 3 */
+	{"%c", "numeric specifier", "%c", "3", {NULL, "2012-05-02", "2012-05-09", "2012-05-16", "2012-05-23", "2012-05-30", NULL}, 1},
+	{"%a string", "name specifier", "%a", "\"Wed\"", {"2012-03-11", "2012-03-12", "2012-03-13", "2012-03-14", "2012-03-15", "2012-03-16", "2012-03-17"}, 0},
+	{"%A string", "name specifier", "%A", "\"Wednesday\"", {"2012-03-11", "2012-03-12", "2012-03-13", "2012-03-14", "2012-03-15", "2012-03-16", "2012-03-17"}, 0},
+	{"%b string", "name specifier", "%b", "\"Jun\"", {"2012-03-14", "2012-04-14", "2012-05-14", "2012-06-14", "2012-07-14", "2012-08-14", "2012-09-14"}, 0},
+	{"%B string", "name specifier", "%B", "\"June\"", {"2012-03-14", "2012-04-14", "2012-05-14", "2012-06-14", "2012-07-14", "2012-08-14", "2012-09-14"}, 0},
+	{"date", "date bound", "", "2012-03-16", {"2012-03-13", "2012-03-14", "2012-03-15", "2012-03-16", "2012-03-17", "2012-03-18", "2012-03-19"}, 1},
+	{"time", "time bound", "", "12:00:00", {"2012-03-16T11:59:57", "2012-03-16T11:59:58", "2012-03-16T11:59:59", "2012-03-16T12:00:00", "2012-03-16T12:00:01", "2012-03-16T12:00:02", "2012-03-16T12:00:03"}, 1},
+	{"date-time", "date-time bound", "", "2012-03-16T12:00:00", {"2012-03-16T11:59:57", "2012-03-16T11:59:58", "2012-03-16T11:59:59", "2012-03-16T12:00:00", "2012-03-16T12:00:01", "2012-03-16T12:00:02", "2012-03-16T12:00:03"}, 1},
 };
 #define NAFIELD	((int)(sizeof(afields) / sizeof(*afields)))
-/* operators: text, truth for (below, at, above) as bits 0..2 */
+/* operators: text, relation as truth for (below, at, above) in bits 0..2 */
 struct aop {
 	const char *txt;
 	unsigned int truth;
@@ -769,16 +855,24 @@ static const struct aop aops[] = {
 };
 #define NAOP	((int)(sizeof(aops) / sizeof(*aops)))
 
+/* truth of (value at distance DIST from the constant) OP constant */
+static int
+op_truth(const struct aop *o, int dist)
+{
+	return (int)((o->truth >> (dist < 0 ? 0 : dist == 0 ? 1 : 2)) & 1U);
+}
+
 static int
 do_atom(int fi, int oi, int neg, int replay)
 {
 	const struct afield *a = afields + fi;
 	const struct aop *o = aops + oi;
-	char expr[128], cas[64], key[160], cmd[256];
+	char expr[128], cas[64], key[160], cmd[512];
 	char lines[32][40];
+	int dist[7], nl = 0;
 	struct xres r;
-	unsigned int want = neg ? (~o->truth & 7U) : o->truth;
 	int bad = 0;
+	size_t ck;
 	EX_CTR(c_skip, "skipped:ordering operators on names of weekdays and months (no order stated)");
 	EX_CTR(c_skip2, "skipped:a specifier without an operator is not in the documented grammar");
 	EX_CTR(c_atoms, "atom_cases");
@@ -793,25 +887,33 @@ do_atom(int fi, int oi, int neg, int replay)
 	}
 	if (neg && a->lhs[0] == '\0' && o->txt[0] == '=') {
 		/* "!=" would be read as one token */
-		snprintf(expr, sizeof(expr), "!(%s%s)", o->txt, a->val[0]);
+		snprintf(expr, sizeof(expr), "!(%s%s)", o->txt, a->val);
 	} else {
-		snprintf(expr, sizeof(expr), "%s%s%s%s", neg ? "!" : "", a->lhs, o->txt, a->val[0]);
+		snprintf(expr, sizeof(expr), "%s%s%s%s", neg ? "!" : "", a->lhs, o->txt, a->val);
 	}
-	for (int i = 0; i < 3; i++) {
-		snprintf(lines[i], sizeof(lines[i]), "%s", a->line[i]);
+	ck = (size_t)snprintf(cmd, sizeof(cmd), "printf '%%s\\n'");
+	for (int i = 0; i < 7; i++) {
+		if (a->line[i]) {
+			snprintf(lines[nl], sizeof(lines[nl]), "%s", a->line[i]);
+			dist[nl++] = i - 3;
+			ck += (size_t)snprintf(cmd + ck, sizeof(cmd) - ck, " %s", a->line[i]);
+		}
 	}
-	run_expr(expr, lines, 3, &r);
+	snprintf(cmd + ck, sizeof(cmd) - ck, " | dgrep '%s'", expr);
+	run_expr(expr, lines, nl, &r);
 	++*c_eval;
 	++*c_atoms;
-	*c_states += 3;
-	*c_trans += 3;
+	*c_states += (uint64_t)nl;
+	*c_trans += (uint64_t)nl;
 	ex_outcome(ex_hash_mix(ex_hash(expr, strlen(expr)), r.sel ^ ((uint64_t)r.stage << 8)));
 	snprintf(cas, sizeof(cas), "atom %d %d %d", fi, oi, neg);
-	snprintf(cmd, sizeof(cmd), "printf '%%s\\n' %s %s %s | dgrep '%s'", a->line[0], a->line[1], a->line[2], expr);
 	snprintf(key, sizeof(key), "atom %s op-%s%s", a->kind, o->word, neg ? " negated" : "");
 	if (replay) {
-		printf("  atom '%s': parse rc %d, stage %s, selected below/at/above = %u%u%u, comparison semantics say %u%u%u\n", expr, r.parse_rc,
-		       stage_name[r.stage], r.sel & 1U, (r.sel >> 1) & 1U, (r.sel >> 2) & 1U, want & 1U, (want >> 1) & 1U, (want >> 2) & 1U);
+		printf("  atom '%s': parse rc %d, stage %s; lines at distance -3..+3 from the constant:", expr, r.parse_rc, stage_name[r.stage]);
+		for (int i = 0; i < nl; i++) {
+			printf(" %+d:%s/%s", dist[i], (r.sel >> i) & 1U ? "sel" : "no", (op_truth(o, dist[i]) ^ neg) ? "true" : "false");
+		}
+		printf("\n");
 	}
 	if (r.hang || r.died || r.asan_hits) {
 		ex_viol(key, (double)fi, cas, cmd, "'%s': child %s in %s%s%s", expr, r.hang ? "hung" : r.died ? "died" : "had an ASan report",
@@ -822,16 +924,176 @@ do_atom(int fi, int oi, int neg, int replay)
 		ex_viol(key, (double)fi, cas, cmd, "'%s' is rejected by the parser (the usage text lists this operator)", expr);
 		return 1;
 	}
-	for (int i = 0; i < 3; i++) {
-		if (((r.sel >> i) & 1U) != ((want >> i) & 1U)) {
-			static const char *const pos[3] = {"below", "equal to", "above"};
-			ex_viol(key, (double)fi, cas, cmd, "'%s' on line '%s' (value %s the constant): %s, but (line's value %s constant) is %s",
-				expr, a->line[i], pos[i], (r.sel >> i) & 1U ? "selected" : "not selected", o->txt[0] ? o->txt : "=",
-				(want >> i) & 1U ? "true" : "false");
+	for (int i = 0; i < nl; i++) {
+		int want = op_truth(o, dist[i]) ^ neg;
+		if ((int)((r.sel >> i) & 1U) != want) {
+			char k2[200];
+			/* the distance is a coordinate of its own: a defect at one distance only (a sentinel
+			 * value of the comparison) is not a defect of the whole operator */
+			snprintf(k2, sizeof(k2), "%s at distance %s%d", key, dist[i] > 0 ? "plus" : dist[i] < 0 ? "minus" : "", dist[i] < 0 ? -dist[i] : dist[i]);
+			ex_viol(k2, (double)fi, cas, cmd, "'%s' on line '%s' (value = constant %+d): %s, but %s(line's value %s constant) is %s",
+				expr, lines[i], dist[i], (r.sel >> i) & 1U ? "selected" : "not selected", neg ? "not " : "", o->txt[0] ? o->txt : "=",
+				want ? "true" : "false");
 			bad = 1;
 		}
 	}
 	return bad;
+}
+
+/* ---- pairs of atoms: every atom kind x operator (also omitted) in front of and behind every other ---- */
+enum { PK_Y, PK_A, PK_DATE, PK_TIME, PK_DT, NPK };
+static const char *const pk_name[NPK] = {"numeric specifier", "name specifier", "date bound", "time bound", "date-time bound"};
+static const char *const pk_lhs[NPK] = {"%Y", "%a", "", "", ""};
+static const char *const pk_val[NPK] = {"2012", "\"Wed\"", "2012-03-14", "12:00:00", "2012-03-14T12:00:00"};
+/* operators of a pair atom: indices into aops: = != < <= > >= omitted */
+static const int pk_ops[7] = {0, 1, 2, 3, 4, 5, 8};
+struct patom {
+	int kind, op;
+	char txt[40];
+};
+static struct patom patoms[NPK * 7];
+static int npatoms;
+#define NGRID	15
+static char grid[32][40];
+static int grid_y[NGRID], grid_date[NGRID], grid_sec[NGRID], grid_wd[NGRID];
+
+static void
+mk_pairs(void)
+{
+	static const int gd[5][3] = {{2011, 3, 14}, {2012, 3, 13}, {2012, 3, 14}, {2012, 3, 15}, {2013, 3, 14}};
+	static const int gh[3] = {11, 12, 13};
+	int n = 0;
+	for (int i = 0; i < 5; i++) {
+		for (int j = 0; j < 3; j++, n++) {
+			snprintf(grid[n], sizeof(grid[n]), "%04d-%02d-%02dT%02d:00:00", gd[i][0], gd[i][1], gd[i][2], gh[j]);
+			grid_y[n] = gd[i][0];
+			grid_date[n] = gd[i][0] * 10000 + gd[i][1] * 100 + gd[i][2];
+			grid_sec[n] = gh[j] * 3600;
+			grid_wd[n] = c17_wday(gd[i][0], gd[i][1], gd[i][2]);
+		}
+	}
+	for (int k = 0; k < NPK; k++) {
+		for (int q = 0; q < 7; q++) {
+			const struct aop *o = aops + pk_ops[q];
+			if (k == PK_A && o->ordering) {
+				continue;	/* no order on names */
+			}
+			if (o->txt[0] == '\0' && pk_lhs[k][0]) {
+				continue;	/* a specifier needs an operator */
+			}
+			patoms[npatoms].kind = k;
+			patoms[npatoms].op = pk_ops[q];
+			snprintf(patoms[npatoms].txt, sizeof(patoms[npatoms].txt), "%s%s%s", pk_lhs[k], o->txt, pk_val[k]);
+			npatoms++;
+		}
+	}
+}
+
+/* truth of pair atom A on grid line I: the line's value OP the constant */
+static int
+patom_truth(const struct patom *a, int i)
+{
+	int d;
+	switch (a->kind) {
+	case PK_Y:
+		d = grid_y[i] - 2012;
+		break;
+	case PK_A:
+		d = grid_wd[i] == 3 ? 0 : 1;
+		break;
+	case PK_DATE:
+		d = grid_date[i] - 20120314;
+		break;
+	case PK_TIME:
+		d = grid_sec[i] - 43200;
+		break;
+	default:
+		d = grid_date[i] != 20120314 ? grid_date[i] - 20120314 : grid_sec[i] - 43200;
+		break;
+	}
+	return op_truth(aops + a->op, d);
+}
+
+/* does the single atom behave on the grid (else the pairs with it say nothing about pairs) */
+static int
+patom_alone_ok(int ai)
+{
+	static signed char memo[NPK * 7];
+	if (memo[ai] == 0) {
+		struct xres r;
+		uint32_t want = 0;
+		char key[160], cas[48], cmd[128];
+		run_expr(patoms[ai].txt, grid, NGRID, &r);
+		for (int i = 0; i < NGRID; i++) {
+			want |= (uint32_t)patom_truth(patoms + ai, i) << i;
+		}
+		memo[ai] = (r.parse_rc >= 0 && !r.died && !r.asan_hits && r.sel == want) ? 1 : -1;
+		if (memo[ai] < 0) {
+			snprintf(key, sizeof(key), "atom on the pair grid | %s op-%s", pk_name[patoms[ai].kind], aops[patoms[ai].op].word);
+			snprintf(cas, sizeof(cas), "pair1 %d", ai);
+			snprintf(cmd, sizeof(cmd), "dgrep '%s' < grid   # 5 dates x 3 times", patoms[ai].txt);
+			ex_viol(key, (double)ai, cas, cmd, "'%s' alone on the 15 grid lines: parse rc %d, %s, selected %04x, comparison semantics say %04x",
+				patoms[ai].txt, r.parse_rc, r.died ? "child died" : "child completed", r.sel, want);
+		}
+	}
+	return memo[ai] > 0;
+}
+
+static int
+do_pair(int ai, int bi, int disj, int replay)
+{
+	char expr[128], key[240], cas[64], cmd[200];
+	struct xres r;
+	uint32_t want = 0;
+	const char *kind = NULL;
+	char kb[96];
+	EX_CTR(c_pairs, "pair_cases");
+	EX_CTR(c_skip, "skipped:pairs with an atom that fails alone (reported under its own key)");
+
+	if (!patom_alone_ok(ai) || !patom_alone_ok(bi)) {
+		++*c_skip;
+		return 0;
+	}
+	snprintf(expr, sizeof(expr), "%s%s%s", patoms[ai].txt, disj ? "||" : "&&", patoms[bi].txt);
+	for (int i = 0; i < NGRID; i++) {
+		int ta = patom_truth(patoms + ai, i), tb = patom_truth(patoms + bi, i);
+		want |= (uint32_t)(disj ? (ta || tb) : (ta && tb)) << i;
+	}
+	run_expr(expr, grid, NGRID, &r);
+	++*c_eval;
+	++*c_pairs;
+	*c_states += NGRID;
+	*c_trans += NGRID;
+	if (!r.died && r.parse_rc >= 0) {
+		++*c_traces;
+	}
+	ex_outcome(ex_hash_mix(ex_hash(expr, strlen(expr)), r.sel ^ ((uint64_t)r.stage << 20)));
+	if (replay) {
+		printf("  pair '%s' on the 15 grid lines: parse rc %d, last stage %s, asan reports %d, selected %04x, comparison semantics say %04x\n",
+		       expr, r.parse_rc, stage_name[r.stage], r.asan_hits, r.sel, want);
+	}
+	if (r.hang) {
+		kind = "hang";
+	} else if (r.parse_rc < 0) {
+		kind = "parse error";
+	} else if (r.asan_hits) {
+		snprintf(kb, sizeof(kb), "asan %s in %s", r.asan_desc, stage_name[r.asan_stage]);
+		kind = kb;
+	} else if (r.died) {
+		snprintf(kb, sizeof(kb), "died in %s", stage_name[r.stage]);
+		kind = kb;
+	} else if (r.sel != want) {
+		kind = "wrong selection";
+	}
+	if (kind == NULL) {
+		return 0;
+	}
+	snprintf(key, sizeof(key), "pair: %s | %s op-%s behind an atom with op-%s", kind, pk_name[patoms[bi].kind], aops[patoms[bi].op].word, aops[patoms[ai].op].word);
+	snprintf(cas, sizeof(cas), "pair %d %d %d", ai, bi, disj);
+	snprintf(cmd, sizeof(cmd), "dgrep '%s' < grid   # {2011-03-14,2012-03-13,2012-03-14,2012-03-15,2013-03-14} x T{11,12,13}:00:00", expr);
+	ex_viol(key, (double)(ai * npatoms + bi), cas, cmd, "'%s' (%s %s %s): %s; selected %04x of the 15 grid lines, comparison semantics say %04x (bit = 3*date + time); each atom alone is right",
+		expr, pk_name[patoms[ai].kind], disj ? "or" : "and", pk_name[patoms[bi].kind], kind, r.sel, want);
+	return 1;
 }
 
 /* ---- binding through the dgrep binary ---- */
@@ -857,27 +1119,23 @@ run_dgrep(const char *expr, int inv, const char *infile, char *out, size_t osz, 
 	return WIFEXITED(st) ? WEXITSTATUS(st) : -1;
 }
 
+/* EXPR through the binary on LINES, compared with the in-process result R */
 static int
-do_bind(const char *tree, int set, int mode, int inv, int replay)
+bind_common(const char *expr, char lines[][40], int nlines, const struct xres *rp, int inv, const char *cas, const char *what, double ord, int replay)
 {
-	int nl = t_nleaves(tree);
-	struct xres r;
-	char expr[512], fin[512], out[2048], exp[2048], cas[128], key[200], cmd[700];
-	char lines[32][40];
+	struct xres r = *rp;
+	char fin[512], out[2048], exp[2048], key[200], cmd[700];
 	const char *rundir = getenv("VERIF_RUNDIR");
 	FILE *f;
 	int sig, rc;
 	size_t k = 0;
 	EX_CTR(c_bind, "cli_binding_replays");
 
-	run_tree(tree, set, nl, mode, &r);
-	render(expr, sizeof(expr), tree, sets[set].atom, mode);
 	snprintf(fin, sizeof(fin), "%s/c17b.%d.in", rundir ? rundir : "/tmp", (int)getpid());
 	if ((f = fopen(fin, "w")) == NULL) {
 		return 0;
 	}
-	for (unsigned int b = 0; b < (1U << nl); b++) {
-		mk_line(lines[b], sizeof(lines[b]), set, b);
+	for (int b = 0; b < nlines; b++) {
 		fprintf(f, "%s\n", lines[b]);
 	}
 	fclose(f);
@@ -887,21 +1145,19 @@ do_bind(const char *tree, int set, int mode, int inv, int replay)
 	/* what the in-process pipeline says the binary prints */
 	exp[0] = '\0';
 	if (r.parse_rc >= 0 && r.stage >= ST_FREE) {
-		for (unsigned int b = 0; b < (1U << nl); b++) {
+		for (int b = 0; b < nlines; b++) {
 			if ((((r.sel >> b) & 1U) != 0) != (inv != 0)) {
 				k += (size_t)snprintf(exp + k, sizeof(exp) - k, "%s\n", lines[b]);
 			}
 		}
 	}
-	snprintf(cas, sizeof(cas), "bind %d %d %d %s", set, mode, inv, tree);
-	snprintf(cmd, sizeof(cmd), "dgrep %s'%s' < lines   # the %d lines of leaf set %s", inv ? "-v " : "", expr, 1 << nl, sets[set].name);
-	snprintf(key, sizeof(key), "binding dgrep%s", inv ? " -v" : "");
+	snprintf(cmd, sizeof(cmd), "dgrep %s'%s' < lines   # %s", inv ? "-v " : "", expr, what);
 	if (replay) {
 		printf("  dgrep %s'%s': exit %d signal %d, printed %zu bytes; in-process pipeline: parse rc %d stage %s died %d, expects %zu bytes\n",
 		       inv ? "-v " : "", expr, rc, sig, strlen(out), r.parse_rc, stage_name[r.stage], r.died, strlen(exp));
 	}
 	if ((r.parse_rc < 0) != (rc == 1 && out[0] == '\0' && !sig) && r.parse_rc < 0) {
-		ex_viol("binding dgrep parse", (double)nl, cas, cmd, "'%s': in-process dexpr_parse fails, the binary exits %d signal %d with %zu bytes of output", expr, rc, sig, strlen(out));
+		ex_viol("binding dgrep parse", ord, cas, cmd, "'%s': in-process dexpr_parse fails, the binary exits %d signal %d with %zu bytes of output", expr, rc, sig, strlen(out));
 		return 1;
 	}
 	if (r.parse_rc < 0) {
@@ -909,18 +1165,48 @@ do_bind(const char *tree, int set, int mode, int inv, int replay)
 	}
 	if ((sig != 0) != (r.died != 0)) {
 		snprintf(key, sizeof(key), "binding dgrep%s: death", inv ? " -v" : "");
-		ex_viol(key, (double)nl, cas, cmd, "'%s': the binary %s (signal %d), the in-process pipeline %s (last stage %s)", expr,
+		ex_viol(key, ord, cas, cmd, "'%s': the binary %s (signal %d), the in-process pipeline %s (last stage %s)", expr,
 			sig ? "was killed" : "ended normally", sig, r.died ? "died" : "completed", stage_name[r.stage]);
 		return 1;
 	}
 	/* what a killed process had in its stdio buffer is lost: no comparison then */
 	if (!sig && !r.died && strcmp(out, exp)) {
 		snprintf(key, sizeof(key), "binding dgrep%s: selection", inv ? " -v" : "");
-		ex_viol(key, (double)nl, cas, cmd, "'%s'%s: the binary printed %zu bytes, the in-process pipeline selects %zu bytes%s", expr, inv ? " with -v" : "",
+		ex_viol(key, ord, cas, cmd, "'%s'%s: the binary printed %zu bytes, the in-process pipeline selects %zu bytes%s", expr, inv ? " with -v" : "",
 			strlen(out), strlen(exp), inv ? " (complement)" : "");
 		return 1;
 	}
 	return 0;
+}
+
+static int
+do_bind(const char *tree, int set, int mode, int inv, int replay)
+{
+	int nl = t_nleaves(tree);
+	struct xres r;
+	char expr[512], cas[128], what[96];
+	char lines[32][40];
+
+	run_tree(tree, set, nl, mode, &r);
+	render(expr, sizeof(expr), tree, sets[set].atom, mode);
+	for (unsigned int b = 0; b < (1U << nl); b++) {
+		mk_line(lines[b], sizeof(lines[b]), set, b);
+	}
+	snprintf(cas, sizeof(cas), "bind %d %d %d %s", set, mode, inv, tree);
+	snprintf(what, sizeof(what), "the %d lines of leaf set %s", 1 << nl, sets[set].name);
+	return bind_common(expr, lines, 1 << nl, &r, inv, cas, what, (double)nl, replay);
+}
+
+static int
+do_bind_pair(int ai, int bi, int disj, int inv, int replay)
+{
+	struct xres r;
+	char expr[128], cas[64];
+
+	snprintf(expr, sizeof(expr), "%s%s%s", patoms[ai].txt, disj ? "||" : "&&", patoms[bi].txt);
+	run_expr(expr, grid, NGRID, &r);
+	snprintf(cas, sizeof(cas), "bindpair %d %d %d %d", ai, bi, disj, inv);
+	return bind_common(expr, grid, NGRID, &r, inv, cas, "the 15 grid lines {2011-03-14,2012-03-13,2012-03-14,2012-03-15,2013-03-14} x T{11,12,13}:00:00", (double)(ai * npatoms + bi), replay);
 }
 
 /* line semantics of the CLI on single-atom expressions (oracle direct) */
@@ -1005,6 +1291,15 @@ main(int argc, char *argv[])
 		return 3;
 	}
 	maxn = bind ? 3 : ex.thorough ? 5 : 4;
+	mk_pairs();
+	gen_stacked(0, 3);
+	for (int n = 1; n <= 3; n++) {
+		gen_stacked(0, n);
+	}
+	if (TS[0][1].n != 4 || TS[0][2].n != 96 || TS[0][3].n != 4608 || npatoms != 29) {
+		fprintf(stderr, "c17: stacked trees %zu/%zu/%zu, pair atoms %d\n", TS[0][1].n, TS[0][2].n, TS[0][3].n, npatoms);
+		return 3;
+	}
 	gen_trees(0, MAXLEAF);
 	for (int n = 1; n <= MAXLEAF; n++) {
 		gen_trees(0, n);
@@ -1021,9 +1316,15 @@ main(int argc, char *argv[])
 	}
 
 	if (ex.cas) {
-		int set, mode, inv, fi, oi, neg;
+		int set, mode, inv, fi, oi, neg, ai, bi, dj;
 		char tree[MAXT];
-		if (sscanf(ex.cas, "tree %d %d %31s", &set, &mode, tree) == 3) {
+		if (sscanf(ex.cas, "pair %d %d %d", &ai, &bi, &dj) == 3 && ai >= 0 && ai < npatoms && bi >= 0 && bi < npatoms) {
+			return ex_replay_result(do_pair(ai, bi, dj, 1) || ex.nviol, "pair %s %s", patoms[ai].txt, patoms[bi].txt);
+		} else if (sscanf(ex.cas, "pair1 %d", &ai) == 1 && ai >= 0 && ai < npatoms) {
+			return ex_replay_result(!patom_alone_ok(ai), "atom %s on the grid", patoms[ai].txt);
+		} else if (sscanf(ex.cas, "bindpair %d %d %d %d", &ai, &bi, &dj, &inv) == 4 && ai >= 0 && ai < npatoms && bi >= 0 && bi < npatoms) {
+			return ex_replay_result(do_bind_pair(ai, bi, dj, inv, 1), "binding pair %s %s", patoms[ai].txt, patoms[bi].txt);
+		} else if (sscanf(ex.cas, "tree %d %d %31s", &set, &mode, tree) == 3) {
 			return ex_replay_result(do_tree(tree, set, mode, 1), "tree %s", tree);
 		} else if (sscanf(ex.cas, "atom %d %d %d", &fi, &oi, &neg) == 3) {
 			return ex_replay_result(do_atom(fi, oi, neg, 1), "atom %s %s", afields[fi].name, aops[oi].txt);
@@ -1037,11 +1338,13 @@ main(int argc, char *argv[])
 	}
 
 	if (bind) {
-		ex_meta("rule", "binding: every tree with <= 3 leaves (leaf set A, both renderings) through the dgrep binary of the same build, without and with -v, "
+		ex_meta("rule", "binding: every tree with <= 3 leaves (leaf set A, both renderings), every tree with stacked negations (!!x, !(!x)) up to 2 leaves, every tree with <= 3 leaves of "
+			"leaf set C (bare time atom) and every ordered pair of atoms (29 atoms: 5 kinds x 6 operators + operator omitted, joined by && and ||) through the dgrep binary of the same build, without and with -v, "
 			"on the 2^n lines; its output must equal the lines the in-process pipeline (dexpr.c by inclusion, forked child per expression) selects, "
 			"resp. their complement, and the binary must die iff the in-process child died; plus the CLI's line semantics on a single atom "
 			"(lines unchanged and in input order, a line matches if any of its dates does, -v = complement incl. lines without a date)");
-		ex_meta("bound", "274 trees x 2 renderings x {without, with -v} (both tiers)");
+		ex_meta("bound", "274 trees x 2 renderings (set A) + 96 trees with stacked negations (<= 2 leaves) x 2 renderings + 274 trees of leaf set C + 1682 pairs of atoms, "
+			"each without and with -v (both tiers)");
 		ex_meta("binding", "dgrep binary of the same (plain) build vs the in-process pipeline");
 		{
 			uint64_t id = 0;
@@ -1066,6 +1369,53 @@ main(int argc, char *argv[])
 					}
 				}
 			}
+			/* stacked negations up to 2 leaves, leaf set C up to 3 leaves, all pairs of atoms */
+			for (int n = 1; n <= 2; n++) {
+				for (size_t i = 0; i < TS[0][n].n && !ex_expired(); i++) {
+					if (!t_excess(TS[0][n].t[i])) {
+						continue;
+					}
+					for (int mode = 0; mode < 2; mode++) {
+						for (int inv = 0; inv < 2; inv++, id++) {
+							if (ex_mine(id)) {
+								do_bind(TS[0][n].t[i], 0, mode, inv, 0);
+								++*c_eval;
+								++*c_traces;
+								*c_states += 1U << n;
+								*c_trans += 1U << n;
+							}
+						}
+					}
+				}
+			}
+			for (int n = 1; n <= 3; n++) {
+				for (size_t i = 0; i < T[0][n].n && !ex_expired(); i++) {
+					for (int inv = 0; inv < 2; inv++, id++) {
+						if (ex_mine(id)) {
+							do_bind(T[0][n].t[i], 2, R_MIN, inv, 0);
+							++*c_eval;
+							++*c_traces;
+							*c_states += 1U << n;
+							*c_trans += 1U << n;
+						}
+					}
+				}
+			}
+			for (int ai = 0; ai < npatoms && !ex_expired(); ai++) {
+				for (int bi = 0; bi < npatoms; bi++) {
+					for (int dj = 0; dj < 2; dj++) {
+						for (int inv = 0; inv < 2; inv++, id++) {
+							if (ex_mine(id)) {
+								do_bind_pair(ai, bi, dj, inv, 0);
+								++*c_eval;
+								++*c_traces;
+								*c_states += NGRID;
+								*c_trans += NGRID;
+							}
+						}
+					}
+				}
+			}
 			if (ex.worker == 0) {
 				do_cli_lines();
 			}
@@ -1081,10 +1431,16 @@ main(int argc, char *argv[])
 		"written tree. states = truth assignments judged, transitions = line evaluations compared, traces = expressions whose child completed with the "
 		"whole truth table compared; non-trivial = trees the rewriting must change (a negated inner node, or && above ||). "
 		"Class key = kind of failure + skeleton of the smallest tree (reduction: child subtree / lift a subtree / clear a negation) that fails the same way. "
-		"Atom semantics: %d fields x %d operator spellings x plain/negated x lines below/at/above the constant, own keys; ordering operators on weekday/month "
-		"names skipped (no order stated).", NAFIELD, NAOP);
-	ex_meta("bound", "trees with 1..%d leaves: %s (set A) + 1..4 leaves (set B), x 2 renderings; blank-separated rendering up to 2 leaves; %d atom cases",
-		maxn, maxn == 5 ? "2+16+256+5120+114688" : "2+16+256+5120", NAFIELD * NAOP * 2);
+		"Set C (%%Y<2013, 12:00:00, %%m!=4, %%d>=16; up to 4 leaves) puts an atom with omitted operator between atoms with other operators. "
+		"Stacked negations: every tree up to 3 leaves with 0..2 negations on an inner node and 0..3 on a leaf, written !!x (minimal) and !(!(x)) (full). "
+		"Pairs: 29 atoms (year, weekday name, date, time, date-time bound x = != < <= > >= and operator omitted) in every ordered pair joined by && and ||, on a "
+		"grid of 5 dates x 3 times, oracle = comparison semantics of each atom on each line (pairs with an atom that fails alone are skipped, the atom is reported). "
+		"Atom semantics: %d fields x %d operator spellings x plain/negated x lines at every distance -3..+3 from the constant, own keys (kind, operator, distance); "
+		"ordering operators on weekday/month names skipped (no order stated).", NAFIELD, NAOP);
+	ex_meta("bound", "trees with 1..%d leaves: %s (set A) + 1..4 leaves (set B) + 1..%d leaves (set C), x 2 renderings; blank-separated rendering up to 2 leaves; "
+		"stacked negations: all 4+96 trees up to 2 leaves, with 3 leaves %s; 1682 pairs; %d atom cases x 7 distances",
+		maxn, maxn == 5 ? "2+16+256+5120+114688" : "2+16+256+5120", ex.thorough ? 4 : 3,
+		ex.thorough ? "all 4608" : "the 640 with one doubled negation", NAFIELD * NAOP * 2);
 
 	{
 		uint64_t id = 0;
@@ -1098,9 +1454,49 @@ main(int argc, char *argv[])
 				}
 			}
 		}
+		/* pairs of atoms */
+		for (int ai = 0; ai < npatoms && !ex_expired(); ai++) {
+			for (int bi = 0; bi < npatoms; bi++) {
+				for (int dj = 0; dj < 2; dj++, id++) {
+					if (ex_mine(id)) {
+						do_pair(ai, bi, dj, 0);
+						if (ex_want_sample()) {
+							ex_sample("pair '%s%s%s' on the 15 grid lines", patoms[ai].txt, dj ? "||" : "&&", patoms[bi].txt);
+						}
+					}
+				}
+			}
+		}
+		/* stacked negations */
+		for (int n = 1; n <= 3; n++) {
+			for (size_t i = 0; i < TS[0][n].n && !ex.expired; i++) {
+				const char *tree = TS[0][n].t[i];
+				int x = t_excess(tree);
+				if (x == 0 || (n == 3 && !ex.thorough && x != 1)) {
+					continue;
+				}
+				if (!ex_mine(id + i / 16U)) {
+					continue;
+				}
+				if (ex.deadline > 0 && ex_now() > ex.deadline) {
+					ex.expired = 1;
+					break;
+				}
+				++*c_nontriv;
+				for (int mode = 0; mode < (n <= 2 ? NREND : 2); mode++) {
+					do_tree(tree, 0, mode, 0);
+				}
+				if (ex_want_sample()) {
+					char e[512];
+					render(e, sizeof(e), tree, sets[0].atom, R_MIN);
+					ex_sample("tree %s = '%s' (stacked negations) on the %d lines of leaf set A", tree, e, 1 << n);
+				}
+			}
+			id += TS[0][n].n / 16U + 1U;
+		}
 		for (int n = 1; n <= maxn; n++) {
-			for (int set = 0; set < 2; set++) {
-				if (n > sets[set].nleaf) {
+			for (int set = 0; set < 3; set++) {
+				if (n > sets[set].nleaf || (set == 2 && n == 4 && !ex.thorough)) {
 					continue;
 				}
 				/* slices of 16 trees so that the reduction cache of a worker is reused */
